@@ -735,6 +735,7 @@ func runL2(args []string) {
 	notes := map[string]int{}
 	outcome := map[string]int{}
 	errClasses := map[string]int{}
+	hyp := map[string]int{}
 	parseRejected := 0
 
 	for i := 0; i < *n; i++ {
@@ -858,6 +859,16 @@ func runL2(args []string) {
 				rep.addHolds(p, Finding{Case: describeL2(c), Kind: "holds", Detail: d, Holds: holds, Impl: res.obs(), Model: resp["model"]})
 			}
 		}
+		if wf, ok := resp["argsWF"].(bool); ok {
+			if wf {
+				hyp["ArgWF-holds"]++
+			} else {
+				hyp["ArgWF-fails"]++
+				rep.Mismatches = appendMismatch(rep.Mismatches, Finding{Case: describeL2(c), Kind: "mismatch",
+					Detail: "the value translator produced an argument tree that does not have the shape of its type descriptors: hypothesis ValWF of the no-panic theorems is not met by this input",
+					Holds: holds, Impl: res.obs(), Model: resp["model"]}, []string{"C18"})
+			}
+		}
 		if !getBool(resp, "agree") {
 			f := Finding{Case: describeL2(c), Kind: "mismatch", Detail: "model and implementation disagree", Holds: holds,
 				Impl: res.obs(), Model: resp["model"]}
@@ -869,6 +880,7 @@ func runL2(args []string) {
 			rep.Mismatches = appendMismatch(rep.Mismatches, f2, am.A)
 		}
 	}
+	rep.Distribution["theorem_hypotheses"] = hyp
 	rep.Distribution["perturbations_and_forms"] = notes
 	rep.Distribution["outcomes"] = outcome
 	rep.Distribution["error_classes"] = errClasses
